@@ -1,6 +1,6 @@
 (* C03 - The target is left running and undisturbed.  Property theorems only (dumper bookkeeping). *)
 From Coq Require Import List NArith Arith.
-From MDW Require Import Ptrace PtraceProofs PtraceMore.
+From MDW Require Import Ptrace PtraceProofs PtraceMore PtraceWait.
 Import ListNotations.
 Local Open Scope nat_scope.
 
@@ -24,3 +24,18 @@ Theorem C03_signals_reinjected_once : forall ts reads,
   delivered (final (run ts InitFails)) = [].
 Proof. exact signals_reinjected_once. Qed.
 Print Assumptions C03_signals_reinjected_once.
+
+(* The wait loop after PTRACE_ATTACH, call by call: interrupted waits (EINTR) never change its outcome, and when the
+   calls - interruptions aside - report the signals [sigs] and then the SIGSTOP stop, exactly those signals are handed
+   back, once each and in order, and the thread counts as attached. *)
+Theorem C03_interrupted_wait_is_retried : forall t ws,
+  wait_loop t ws = wait_loop t (filter (fun w => negb (is_eintr w)) ws).
+Proof. exact eintr_irrelevant. Qed.
+Print Assumptions C03_interrupted_wait_is_retried.
+
+Theorem C03_interrupted_attach : forall t ws sigs rest,
+  filter (fun w => negb (is_eintr w)) ws = map WSig sigs ++ WStop :: rest ->
+  wait_loop t ws = (map (Reinject t) sigs, Some true) /\
+  fst (suspend_thread {| t_id := t; t_kind := AOk; t_sigs := sigs |}) = map (Reinject t) sigs ++ [Attach t].
+Proof. exact interrupted_attach. Qed.
+Print Assumptions C03_interrupted_attach.
